@@ -140,7 +140,10 @@ key_int!(u64);
 key_int!(u32);
 key_int!(usize);
 /// ids carrying this flag are mapped to long keys: 150 constant leading elements, then the identity
+/// (Vec<u16>: 70 leading elements, Vec<u32>: 40)
 pub const LONG_KEY: u64 = 1 << 44;
+/// this id is mapped to the empty vector / string by the byte-string key types
+pub const EMPTY_KEY: u64 = 0xffff_ff77;
 
 impl Key for Vec<u8> {
     fn from_id(id: u64) -> Self {
@@ -148,6 +151,9 @@ impl Key for Vec<u8> {
             let mut v = vec![0xABu8; 150];
             v.extend_from_slice(&(id & !LONG_KEY).to_le_bytes());
             return v;
+        }
+        if id == EMPTY_KEY {
+            return vec![];
         }
         // variable length: ids below 256 are one byte long
         let b = id.to_le_bytes();
@@ -160,6 +166,9 @@ impl Key for Vec<u8> {
             b.copy_from_slice(&self[150..158]);
             return u64::from_le_bytes(b) | LONG_KEY;
         }
+        if self.is_empty() {
+            return EMPTY_KEY;
+        }
         let mut b = [0u8; 8];
         b[..self.len()].copy_from_slice(self);
         u64::from_le_bytes(b)
@@ -170,9 +179,15 @@ impl Key for String {
         if id & LONG_KEY != 0 {
             return format!("{}item-{}", "prefix-".repeat(30), id & !LONG_KEY);
         }
+        if id == EMPTY_KEY {
+            return String::new();
+        }
         format!("item-{}", id)
     }
     fn to_id(&self) -> u64 {
+        if self.is_empty() {
+            return EMPTY_KEY;
+        }
         if let Some(rest) = self.strip_prefix(&"prefix-".repeat(30)) {
             return rest[5..].parse::<u64>().unwrap() | LONG_KEY;
         }
@@ -181,15 +196,37 @@ impl Key for String {
 }
 impl Key for Vec<u16> {
     fn from_id(id: u64) -> Self {
+        if id & LONG_KEY != 0 {
+            let mut v = vec![0xABCDu16; 70];
+            v.extend(<Vec<u16> as Key>::from_id(id & !LONG_KEY));
+            return v;
+        }
+        if id == EMPTY_KEY {
+            return vec![];
+        }
         let n = (4 - (id.leading_zeros() / 16) as usize).max(1);
         (0..n).map(|k| (id >> (16 * k)) as u16).collect()
     }
     fn to_id(&self) -> u64 {
+        if self.len() > 4 {
+            return self[70..].to_vec().to_id() | LONG_KEY;
+        }
+        if self.is_empty() {
+            return EMPTY_KEY;
+        }
         self.iter().enumerate().map(|(k, v)| (*v as u64) << (16 * k)).sum()
     }
 }
 impl Key for Vec<u32> {
     fn from_id(id: u64) -> Self {
+        if id & LONG_KEY != 0 {
+            let mut v = vec![0xABCD_EF01u32; 40];
+            v.extend(<Vec<u32> as Key>::from_id(id & !LONG_KEY));
+            return v;
+        }
+        if id == EMPTY_KEY {
+            return vec![];
+        }
         if id >> 32 == 0 {
             vec![id as u32]
         } else {
@@ -197,6 +234,12 @@ impl Key for Vec<u32> {
         }
     }
     fn to_id(&self) -> u64 {
+        if self.len() > 2 {
+            return self[40..].to_vec().to_id() | LONG_KEY;
+        }
+        if self.is_empty() {
+            return EMPTY_KEY;
+        }
         self.iter().enumerate().map(|(k, v)| (*v as u64) << (32 * k)).sum()
     }
 }
